@@ -509,6 +509,13 @@ func vtC16ArbGen(r *rand.Rand, idx int) (string, []int64) {
 	}
 	in = append(in, int64(np))
 	ptimes := r.Perm(np)
+	if r.Intn(3) != 0 {
+		// pods created in the same second (and of equal priority) tie in the pod sorter, so the
+		// order of the earlier creation-time sort of the jobs shows through
+		for i := range ptimes {
+			ptimes[i] = r.Intn(2)
+		}
+	}
 	for i := 1; i <= np; i++ {
 		wl := int64(0)
 		ns := int64(1 + r.Intn(nns))
